@@ -2,7 +2,14 @@
 
 Invariance monitor on umat.gradient / umat.hessian of every finite-strain registry entry: objectivity under superposed
 rigid rotations (stress, new state variables and elasticity), symmetry of P F^T, stress-free virgin reference state,
-major symmetry of hyperelastic tangents, material isotropy of isotropic (non micro-sphere) models.
+major symmetry of hyperelastic tangents, material isotropy of isotropic (non micro-sphere) models (stress and elasticity; for
+tensor-valued states by driving the whole history from the virgin state in the rotated reference frame).
+
+Beside the shared registry the check builds its own entries (EXTRA): the state-variable branches of jax.Hyperelastic and of the
+total / updated Lagrange wrappers of both backends, the micro-sphere frameworks with state variables, other base laws of the
+pseudo-elastic models, documented constructor flags (jit, jacobian, parallel), stiffness units, parameter containers and
+partially given parameters.  Trailing shapes (1,n), (n,1), (2,3), Fortran-ordered read-only F and the empty (0,q,c) state
+array a SolidBody hands over are scheduled by (model index + rep).
 """
 import numpy as np
 
@@ -20,7 +27,27 @@ def tol_for(m, base=1e-9):
 
 def tol_elasticity(m, floor):
     """Second derivatives: the jax models differentiate their (shifted) energy exactly, tensortrax' eigenvalue routine does not."""
-    return floor if matreg.REG_SIZE[m.reg] > 1e-6 else max(tol_for(m), floor)
+    # (tensortrax eigvalsh class: the third audit's implementation measured 1.05e-6 = 70 x 1.5e-8 on the objectivity of the elasticity of
+    # tt.extended_tube in 1 of 300 thorough draws, a margin of 1.4 against the 100 x bound of the stress clauses: the second derivatives get
+    # 300 x. Calibration of a modelled regularisation before any alarm occurred; seeded changes of these clauses give >= 1e-4.)
+    reg = matreg.REG_SIZE[m.reg]
+    return floor if reg > 1e-6 else max(1e-9 + 300 * reg, floor)
+
+
+def tol_isotropy_elasticity(m):
+    """Isotropy of the elasticity is touched by either regularisation (the shift is no isotropic tensor function of C). Measured over
+    300 draws per model: 1e-13 without regularisation, up to 7e-7 = 45 x 1.5e-8 for the tensortrax eigvalsh models (bound 1000 x);
+    for the jax models with a 1e-4 shift the effect (2.6e-3 max|A|) leaves no room for a bound: not asserted (their elasticity is
+    the automatic derivative of the stress, whose isotropy is asserted)."""
+    reg = matreg.REG_SIZE[m.reg]
+    return 1e-8 if reg == 0 else (1000 * reg if reg < 1e-6 else None)
+
+
+# recorded findings of tt.lagrange.morph (KNOWN_FINDINGS.txt matches the key only, whatever the size; cause: eigvalsh / expm of a
+# non-symmetric tensor, a frame-dependent operation): ceilings on the normalised error. Measured over 3000 draws on the unchanged
+# tree: asymmetry of P F^T <= 4.1e-3 (p99 1.4e-3), history isotropy <= 2.6e-2 (p99 1.5e-2); a state read with a shifted slice: 0.12
+CEILING_TAU = {"tt.lagrange.morph": 5e-2}
+CEILING_HISTORY = {"tt.lagrange.morph": 1e-1}
 
 
 def special_rotations(rng, batch):
@@ -38,24 +65,259 @@ def special_rotations(rng, batch):
     return flat.reshape(Q.shape)
 
 
+# ------------------------------------------------------------------------------------------------ entries of this check alone
+# name -> number of reps (quick, thorough); rep selects the constructor flags / stiffness unit / parameter container of the entry
+EXTRA = {
+    "jax.Hyperelastic[nsv=6](viscoelastic)": (2, 6),
+    "tt.total_lagrange[statevars](damaged neo-hooke S)": (2, 4),
+    "tt.updated_lagrange[statevars](damaged neo-hooke sigma)": (2, 4),
+    "jax.total_lagrange[statevars](damaged neo-hooke S)": (2, 8),
+    "jax.updated_lagrange[statevars](damaged neo-hooke sigma)": (2, 8),
+    "tt.microsphere.affine_stretch_statevars(chain)": (2, 4),
+    "tt.microsphere.affine_tube_statevars(chain)": (2, 4),
+    "tt.microsphere.affine_stretch(linear)": (2, 4),
+    "tt.microsphere.affine_tube(langevin)": (2, 4),
+    "tt.ogden_roxburgh(ogden)": (2, 6),
+    "tt.ogden_roxburgh(saint_venant_kirchhoff)": (2, 6),
+    "OgdenRoxburgh(NeoHooke(mu))": (2, 6),
+    "OgdenRoxburgh(NeoHookeCompressible)": (2, 6),
+    "NeoHooke(mu,bulk=5000mu)[units]": (2, 6),
+    "tt.ogden[tuple,ndarray]": (2, 6),
+    "tt.third_order_deformation[defaults]": (2, 4),
+    "jax.mooney_rivlin[defaults]": (1, 4),
+    "tt.finite_strain_viscoelastic[parallel]": (2, 6),
+}
+ALLNAMES = list(C03.NAMES) + list(EXTRA)
+UNITS = (1.0, 1e-6, 1e6)  # stiffness unit of an EXTRA entry by rep: every clause is normalised by max|dP/dF|, i.e. unit-free
+_EXTRA = None
+
+
+def extra_registry():
+    """matreg.Model entries with make(rng, rep) -> (umat, parameters handed over); the registry of matreg is shared with C03 /
+    C12 / C15 and stays as it is.  ``variants``: (tag, constructor flags), selected by rep; the stiffness unit is UNITS[rep % 3]."""
+    global _EXTRA
+    if _EXTRA is not None:
+        return _EXTRA
+    import felupe as fem
+    import felupe.constitution.jax as JX
+    import felupe.constitution.tensortrax as TT
+    import jax
+    import jax.numpy as jnp
+    import tensortrax.math as tm
+    Model, U = matreg.Model, matreg.U
+    out = []
+
+    def add(name, make, variants=(("default", {}),), wide=True, **flags):
+        m = Model(name, flags.pop("backend"), None, **flags)
+        m.variants, m.wide = list(variants), wide and flags.get("reg") is None  # wide: admissible for every det F > 0
+        m.make = lambda r, rep, make=make, m=m: make(r, rep, dict(m.variants[rep % len(m.variants)][1]))
+        out.append(m)
+
+    # ---- jax.Hyperelastic(nstatevars > 0): no shared entry reaches its has_aux / in_axes / out_axes branch. The energy is the jax
+    # port of finite_strain_viscoelastic (Shutov et al.): implicit update of the inelastic right Cauchy-Green tensor (6 entries)
+    def ve_jax(C, Cin, mu, eta, dtime):
+        J3 = jnp.linalg.det(C) ** (-1 / 3)
+        Ci = Cin[:6][jnp.array([[0, 1, 2], [1, 3, 4], [2, 4, 5]])] + mu / eta * dtime * J3 * C
+        Ci = jnp.linalg.det(Ci) ** (-1 / 3) * Ci
+        i, j = jnp.triu_indices(3)
+        return mu / 2 * (J3 * jnp.trace(C @ jnp.linalg.inv(Ci)) - 3), Ci[i, j]
+
+    def visco(H, fun):
+        def make(r, rep, kw):
+            s = UNITS[rep % 3]
+            p = dict(mu=s * U(r, 0.5, 2), eta=s * U(r, 0.5, 3), dtime=U(r, 0.2, 1))
+            return H(fun, nstatevars=6, **kw, **p), p
+        return make
+    add("jax.Hyperelastic[nsv=6](viscoelastic)", visco(JX.Hyperelastic, ve_jax), backend="jax", nsv=6, sv0=[1, 0, 0, 1, 0, 1], hyperelastic=False,
+        history=True, isochoric=True, variants=[("jax.Hyperelastic(default)", {}), ("jax.Hyperelastic(parallel=True)", dict(parallel=True)),
+                                                ("jax.Hyperelastic(jit=False)", dict(jit=False))])  # un-jitted: 15 s, thorough tier only
+    add("tt.finite_strain_viscoelastic[parallel]", visco(TT.Hyperelastic, TT.models.hyperelastic.finite_strain_viscoelastic), backend="tt", nsv=6,
+        sv0=[1, 0, 0, 1, 0, 1], hyperelastic=False, history=True, isochoric=True, variants=[("tt.Hyperelastic[statevars](parallel=True)", dict(parallel=True))])
+
+    # ---- state-variable branch of total_lagrange / updated_lagrange (both backends): compressible Neo-Hooke with a scalar damage
+    # eta(Wmax - W) <= 1, Wmax the largest strain energy density of the history (state variable); S resp. sigma are returned
+    def damaged(be, kind):
+        if be == "tt":
+            det, inv, log, exp, mx, tr = tm.linalg.det, tm.linalg.inv, tm.log, tm.exp, tm.maximum, tm.trace
+        else:
+            det, inv, log, exp, mx, tr = jnp.linalg.det, jnp.linalg.inv, jnp.log, jnp.exp, jnp.maximum, jnp.trace
+
+        def law(F, statevars, mu, lmbda):
+            C, b, J = F.T @ F, F @ F.T, det(F)
+            W = mu / 2 * (tr(C) - 3) - mu * log(J) + lmbda / 2 * log(J) ** 2
+            Wmax = mx(W, tm.array(statevars[0], like=W)) if be == "tt" else mx(W, statevars[0])
+            eta = 1 - 0.3 * (1 - exp(-(Wmax - W) / mu))
+            if kind == "total":
+                T = mu * (C @ inv(C) - inv(C)) + lmbda * log(J) * inv(C)
+            else:
+                T = (mu * (b - b @ inv(b)) + lmbda * log(J) * (b @ inv(b))) / J
+            return eta * T, (tm.special.try_stack([[Wmax]], fallback=statevars) if be == "tt" else jnp.array([Wmax]))
+        mod = TT if be == "tt" else JX
+        wrapped = getattr(mod, kind + "_lagrange")(law)
+
+        def make(r, rep, kw):
+            s = UNITS[rep % 3]
+            p = dict(mu=s * U(r, 0.5, 2), lmbda=s * U(r, 1, 4))
+            return mod.Material(wrapped, nstatevars=1, **kw, **p), p
+        return make
+    tt_flags = [("tt.Material[statevars](default)", {}), ("tt.Material[statevars](parallel=True)", dict(parallel=True))]
+    add("tt.total_lagrange[statevars](damaged neo-hooke S)", damaged("tt", "total"), backend="tt", nsv=1, hyperelastic=False, history=True, variants=tt_flags)
+    add("tt.updated_lagrange[statevars](damaged neo-hooke sigma)", damaged("tt", "updated"), backend="tt", nsv=1, hyperelastic=False, history=True,
+        variants=tt_flags[::-1])
+    add("jax.total_lagrange[statevars](damaged neo-hooke S)", damaged("jax", "total"), backend="jax", nsv=1, hyperelastic=False, history=True,
+        variants=[("jax.Material(jacobian=jacrev)", dict(jacobian=jax.jacrev)), ("jax.Material(jit=False)", dict(jit=False)),
+                  ("jax.Material(default)", {}), ("jax.Material(parallel=True)", dict(parallel=True))])
+    add("jax.updated_lagrange[statevars](damaged neo-hooke sigma)", damaged("jax", "updated"), backend="jax", nsv=1, hyperelastic=False, history=True,
+        variants=[("jax.Material(parallel=True)", dict(parallel=True)), ("jax.Material(jacobian=jacfwd)", dict(jacobian=jax.jacfwd)),
+                  ("jax.Material(default)", {}), ("jax.Material(jit=False)", dict(jit=False))])
+
+    # ---- micro-sphere frameworks with state variables (21 directions) and a user chain law that softens with the largest
+    # stretch deviation a direction has seen; stress free at lambda = 1
+    def chain(lam, statevars, mu):
+        old = tm.array(statevars[:21], like=lam, shape=(21,))
+        return mu * (lam - 1) ** 2 / (1 + old), tm.special.try_stack([tm.maximum(tm.abs(lam - 1), old)], fallback=statevars)
+    ms = TT.models.hyperelastic.microsphere
+    for fw in (ms.affine_stretch_statevars, ms.affine_tube_statevars):
+        def make(r, rep, kw, fw=fw):
+            s = UNITS[rep % 3]
+            p = dict(mu=s * U(r, 0.5, 2))
+            return TT.Hyperelastic(fw, f=chain, kwargs=dict(p), nstatevars=21, **kw), p
+        add("tt.microsphere.%s(chain)" % fw.__name__, make, backend="tt", nsv=21, hyperelastic=False, history=True, isotropic=False, microsphere=True,
+            isochoric=True)
+
+    # the frameworks without state: the shared entries pair affine_stretch with langevin and affine_tube with linear only
+    for fw, law, sampler in ((ms.affine_stretch, ms.linear, lambda r, s: dict(mu=s * U(r, 0.5, 2))),
+                             (ms.affine_tube, ms.langevin, lambda r, s: dict(mu=s * U(r, 0.5, 2), N=U(r, 5, 20)))):
+        def make(r, rep, kw, fw=fw, law=law, sampler=sampler):
+            p = sampler(r, UNITS[rep % 3])
+            return TT.Hyperelastic(fw, f=law, kwargs=dict(p)), p
+        add("tt.microsphere.%s(%s)" % (fw.__name__, law.__name__), make, backend="tt", isotropic=False, microsphere=True, isochoric=True,
+            wide=law is ms.linear)  # the Langevin chain has a limiting stretch sqrt(N)
+
+    # ---- other base laws of the pseudo-elastic models (shared entries: neo_hooke resp. NeoHooke(mu, bulk) only)
+    def or_ogden(r, rep, kw):
+        s = UNITS[rep % 3]
+        p = dict(mu=[s * U(r, 0.5, 1.5), s * U(r, 0.05, 0.3)], alpha=[U(r, 1.5, 3), U(r, -2, -1)], r=U(r, 1.5, 4), m=s * U(r, 0.5, 2), beta=U(r, 0, 0.3))
+        return TT.Hyperelastic(TT.models.hyperelastic.ogden_roxburgh, material=TT.models.hyperelastic.ogden, nstatevars=1, **p), p
+
+    def or_svk(r, rep, kw):
+        s = UNITS[rep % 3]
+        p = dict(mu=s * U(r, 0.5, 2), lmbda=s * U(r, 1, 4), r=U(r, 1.5, 4), m=s * U(r, 0.5, 2), beta=U(r, 0, 0.3))
+        return TT.Hyperelastic(TT.models.hyperelastic.ogden_roxburgh, material=TT.models.hyperelastic.saint_venant_kirchhoff, nstatevars=1, **p), p
+    add("tt.ogden_roxburgh(ogden)", or_ogden, backend="tt", nsv=1, hyperelastic=False, history=True, isochoric=True, reg="tt-eig")
+    add("tt.ogden_roxburgh(saint_venant_kirchhoff)", or_svk, backend="tt", nsv=1, hyperelastic=False, history=True)
+
+    def or_hand(base):
+        def make(r, rep, kw):
+            s = UNITS[rep % 3]
+            p = dict(mu=s * U(r, 0.5, 2), lmbda=s * U(r, 1, 4), r=U(r, 1.5, 4), m=s * U(r, 0.5, 2), beta=U(r, 0, 0.3))
+            b = fem.NeoHooke(mu=p["mu"]) if base == "NeoHooke" else fem.NeoHookeCompressible(mu=p["mu"], lmbda=p["lmbda"])
+            return fem.OgdenRoxburgh(b, r=p["r"], m=p["m"], beta=p["beta"]), p
+        return make
+    add("OgdenRoxburgh(NeoHooke(mu))", or_hand("NeoHooke"), backend="hand", nsv=1, hyperelastic=False, history=True, isochoric=True)
+    add("OgdenRoxburgh(NeoHookeCompressible)", or_hand("NeoHookeCompressible"), backend="hand", nsv=1, hyperelastic=False, history=True)
+
+    # ---- stiffness units and penalty ratio, parameter containers, partially given parameters (the rest comes from fun.kwargs)
+    def nh_units(r, rep, kw):
+        s = UNITS[rep % 3]
+        p = dict(mu=s * U(r, 0.5, 2))
+        p["bulk"] = 5000 * p["mu"]
+        return fem.NeoHooke(**p), p
+
+    def ogden_containers(r, rep, kw):
+        s = UNITS[rep % 3]
+        mu, alpha = [s * U(r, 0.5, 1.5), s * U(r, 0.05, 0.3)], [U(r, 1.5, 3), U(r, -2, -1)]
+        p = dict(mu=tuple(mu), alpha=np.array([2, -2])) if rep % 2 else dict(mu=np.array(mu), alpha=tuple(alpha))
+        return TT.Hyperelastic(TT.models.hyperelastic.ogden, **p), p
+
+    def tod_defaults(r, rep, kw):
+        s = UNITS[rep % 3]
+        p = dict(C10=s * U(r, 0.3, 1), C11=s * U(r, 0, 0.05))
+        return TT.Hyperelastic(TT.models.hyperelastic.third_order_deformation, **p), p
+
+    def mr_defaults(r, rep, kw):
+        s = UNITS[rep % 3]
+        p = dict(C01=s * U(r, 0.05, 0.5))
+        return JX.Hyperelastic(JX.models.hyperelastic.mooney_rivlin, **p), p
+    add("NeoHooke(mu,bulk=5000mu)[units]", nh_units, backend="hand")
+    add("tt.ogden[tuple,ndarray]", ogden_containers, backend="tt", isochoric=True, reg="tt-eig")
+    add("tt.third_order_deformation[defaults]", tod_defaults, backend="tt", isochoric=True)
+    add("jax.mooney_rivlin[defaults]", mr_defaults, backend="jax", isochoric=True)
+    assert sorted(m.name for m in out) == sorted(EXTRA)
+    _EXTRA = out
+    return out
+
+
+def lookup(name):
+    return [x for x in (extra_registry() if name in EXTRA else C03.registry()) if x.name == name][0]
+
+
+def shifted_reference_stress(name, p):
+    """P(I) of the jax models that add D = diag(0, -+1e-4, +-1e-4) to C before the eigen decomposition (DESIGN 3.5-4: the
+    regularisation is modelled, the bound 30 x 1e-4 alone lets a residual stress of 3e-3 max|A| pass).  At C = I the shifted
+    tensor is diagonal with distinct entries d_a, its eigenvectors are the coordinate axes and d(lambda_a^2)/dC = e_a (x) e_a,
+    so P(I) = S(I) = diag(2 dW/d(lambda_a^2)) in closed form; parameters are the ones handed to the constructor."""
+    if "storakers" in name:
+        # W = sum_i 2 mu_i / alpha_i^2 (lambda_1^alpha_i + lambda_2^alpha_i + lambda_3^alpha_i - 3 + (J^(-alpha_i beta_i) - 1) / beta_i)
+        d = np.array([1.0, 1 - 1e-4, 1 + 1e-4])
+        mu, al, be = (np.asarray(p[k], float).reshape(-1, 1) for k in ("mu", "alpha", "beta"))
+        J = np.sqrt(np.prod(d))
+        return np.diag((2 * mu / al * (d ** (al / 2) - J ** (-al * be)) / d).sum(0))
+    # extended tube: only the cross-link part sees the shift, lambda_a^2 = det(C)^(-1/3) d_a with the un-shifted det(C);
+    # dD/dC = 0 at C = I for the first invariant D of the distortional part
+    d = np.array([1.0, 1 + 1e-4, 1 - 1e-4])
+    h = -p["Ge"] / p["beta"] * d ** (-p["beta"] / 2 - 1)  # dWe / d(lambda_a^2)
+    return np.diag(2 * h - 2 / 3 * np.sum(h * d))
+
+
+SHIFTED = ("jax.storakers", "jax.extended_tube", "jax.extended_tube[delta=0]")
+
+
 def case_model(name, rep):
     def fn(run):
-        m = [x for x in C03.registry() if x.name == name][0]
+        m = lookup(name)
         rng = rng_for(run.seed, "C11", name, rep)
-        um, p = m.make(rng)
+        extra = name in EXTRA
+        um, p = m.make(rng, rep) if extra else m.make(rng)
         nb = 2 if m.heavy else 4
-        batch = (1, nb)
+        # trailing shape, memory layout and kind of "no state" are scheduled by index (every seed reaches every unit)
+        sched = ALLNAMES.index(name) + rep
+        batch = ((1, nb), (nb, 1))[sched % 2] if m.heavy else ((1, nb), (nb, 1), (2, 3))[sched % 3]
+        if extra:
+            flag = m.variants[rep % len(m.variants)][0]
+            if m.backend == "jax" and "parallel=True" in flag:
+                batch = (1, nb)  # jax.pmap maps the quadrature axis over the devices: one device, one quadrature point
+            run.units["flags:" + flag] += 1
+            run.units["stiffness-unit:%g" % UNITS[rep % 3]] += 1
+        run.units["batch:" + ("(1,n)" if batch[0] == 1 else "(2,3)" if batch == (2, 3) else "(n,1)")] += 1
         F = batch_F(rng, batch, lo=0.75, hi=1.4)
+        if extra and m.wide and rep % 2 == 0:
+            # laws without a limiting stretch are admissible for every det F > 0: strongly deformed states
+            F = batch_F(rng, batch, lo=0.3, hi=3.0)
+            run.units["states:stretches-0.3-to-3"] += 1
         if rep % 2 == 1:
             # coincident principal stretches (where eigenvalue-based models switch to their regularised branch): uniaxial,
             # equibiaxial, pure dilatation, pure rotation - each in a rotated frame
             from ..util import random_rotation
             kinds = [lambda l: np.diag([l, l ** -0.5, l ** -0.5]), lambda l: np.diag([l, l, l ** -1.2]), lambda l: l * np.eye(3), lambda l: np.eye(3)]
-            for k in range(nb):
+            Ff = F.reshape(3, 3, -1)  # a view (F is C-ordered here)
+            for k in range(Ff.shape[-1]):
                 Rm, Qm = random_rotation(rng, 3), random_rotation(rng, 3)
-                F[:, :, 0, k] = Rm @ Qm @ kinds[(k + rep // 2) % 4](float(rng.uniform(0.8, 1.35))) @ Qm.T
+                Ff[:, :, k] = Rm @ Qm @ kinds[(k + rep // 2) % 4](float(rng.uniform(0.8, 1.35))) @ Qm.T
             run.units["states:coincident-principal-stretches"] += 1
         sv = C03.prior_state(m, um, rng, batch)
+        if sched % 3 == 1:
+            # what a caller may hand over as well: Fortran-ordered, read-only arrays (the rotated arguments below are C-ordered:
+            # a result that depends on the memory layout breaks objectivity / isotropy)
+            F = np.asfortranarray(F)
+            F.setflags(write=False)
+            if sv is not None:
+                sv = np.asfortranarray(sv)
+                sv.setflags(write=False)
+            run.units["layout:fortran-readonly"] += 1
+        if m.nsv == 0 and sched % 2 == 1:
+            sv = np.zeros((0,) + batch)  # the state array a SolidBody hands to a model without state variables
+            run.units["statevars:empty-array"] += 1
         mon = "material.invariance"
         tol = tol_for(m)
         # clauses of the stress that the regularisation cannot touch: it shifts eigenvalues / entries of C = F^T F, which does not
@@ -65,6 +327,11 @@ def case_model(name, rep):
         g = um.gradient([F, sv])
         P, svn = np.asarray(g[0], float), g[-1]
         A = np.broadcast_to(np.asarray(um.hessian([F, sv])[0], float), (3, 3, 3, 3) + batch)
+        if maxabs(A) == 0.0 and maxabs(P) == 0.0:
+            # every parameter set of the workload has positive stiffness; a model that does not respond at all (parameters not handed on)
+            # satisfies every clause trivially: nothing is judged, the required units of the model stay unreached (inconclusive)
+            run.skip(mon, "model without any response (P = 0 and A = 0 at a deformed state): all clauses vacuous")
+            return
         sA = max(maxabs(A), 1e-300)
         sP = sA  # errors are normalised by the scale of the whole object, max|dP/dF| (DESIGN 3.5-2)
         Q = special_rotations(rng, batch)
@@ -75,7 +342,16 @@ def case_model(name, rep):
         run.compare(mon, "model=%s clause=objectivity" % name, maxabs(Pq - MM.mm(Q, P)) / sP, tol_exact,
                     "%s: P(QF) != Q P(F)" % name, unit=name + ":objectivity", config=(name, "objectivity"),
                     sample={"model": name, "params": {k: v for k, v in p.items() if not hasattr(v, "shape")}, "clause": "objectivity"})
-        if svn is not None and gq[-1] is not None and np.size(svn):
+        state_returned = True
+        if m.nsv > 0:
+            # a model with state variables returns its new state as an array (nsv, q, c), for the rotated argument as well (a None or
+            # empty return would switch the next clause off while the stress clause books the unit)
+            for tag, a in (("F", svn), ("QF", gq[-1])):
+                if a is None or np.shape(a) != (m.nsv,) + batch:
+                    state_returned = False
+                    run.fail(mon, "model=%s clause=statevars-returned" % name, "%s: gradient([%s, statevars]) returned no new state array of shape %s"
+                             % (name, tag, ((m.nsv,) + batch,)), {"returned shape": None if a is None else list(np.shape(a))}, unit=name + ":objectivity")
+        if state_returned and svn is not None and gq[-1] is not None and np.size(svn):
             ssv = max(maxabs(svn), 1e-300)
             run.compare(mon, "model=%s clause=objectivity-statevars" % name, maxabs(np.asarray(gq[-1]) - np.asarray(svn)) / ssv, 1e-8,
                         "%s: updated state variables change under a superposed rigid rotation" % name, unit=name + ":objectivity")
@@ -87,6 +363,11 @@ def case_model(name, rep):
         tau = MM.mmT(P, F)
         run.compare(mon, "model=%s clause=kirchhoff-symmetric" % name, maxabs(tau - np.swapaxes(tau, 0, 1)) / sA, tol_exact,
                     "%s: P F^T is not symmetric" % name, unit=name + ":tau-symmetric", config=(name, "tau"))
+        if name in CEILING_TAU:
+            # the clause above is a recorded finding of this model (matched by its key, whatever the size): a ceiling well above the
+            # recorded size keeps the clause alive for anything new and large (this model is a user of total_lagrange with state)
+            run.compare(mon, "model=%s clause=kirchhoff-symmetric-ceiling" % name, maxabs(tau - np.swapaxes(tau, 0, 1)) / sA, CEILING_TAU[name],
+                        "%s: asymmetry of P F^T far above the size of the recorded finding" % name, unit=name + ":tau-ceiling", config=(name, "tau-ceiling"))
         # 3 stress-free virgin reference
         I = np.eye(3).reshape(3, 3, 1, 1).copy()
         sv0 = m.initial_statevars((1, 1))
@@ -95,6 +376,11 @@ def case_model(name, rep):
         run.compare(mon, "model=%s clause=stress-free-reference" % name, maxabs(P0) / max(maxabs(A0), 1e-300), max(tol, 1e-10),
                     "%s: the undeformed configuration with virgin state is not stress free" % name, unit=name + ":stress-free",
                     config=(name, "stress-free"), detail={"P(I)": P0[..., 0, 0]})
+        if name in SHIFTED:
+            Pref = shifted_reference_stress(name, p)
+            run.compare(mon, "model=%s clause=stress-free-reference-up-to-documented-shift" % name, maxabs(P0[..., 0, 0] - Pref) / max(maxabs(A0), 1e-300), 1e-10,
+                        "%s: P(I) differs from the closed-form effect of the documented 1e-4 shift of the eigenvalues" % name, unit=name + ":stress-free-shift",
+                        config=(name, "stress-free-shift"), detail={"P(I)": P0[..., 0, 0], "closed form": Pref})
         # 4 major symmetry
         if m.hyperelastic:
             run.compare(mon, "model=%s clause=major-symmetry" % name, maxabs(A - A.transpose(2, 3, 0, 1, 4, 5)) / sA, tol_elasticity(m, 1e-9),
@@ -107,6 +393,30 @@ def case_model(name, rep):
             Pr = np.asarray(um.gradient([FR, sv])[0], float)
             run.compare(mon, "model=%s clause=material-isotropy" % name, maxabs(Pr - MM.mmT(P, R)) / sP, tol,
                         "%s: P(F Q^T) != P(F) Q^T" % name, unit=name + ":isotropy", config=(name, "isotropy"))
+            # the same rotation of the reference configuration, differentiated: A(F R^T)_iJkL = R_JM R_LN A(F)_iMkN
+            if tol_isotropy_elasticity(m) is None:
+                run.skip(mon, "isotropy of the elasticity: the documented 1e-4 shift of the jax model is no isotropic function of C")
+            else:
+                Ar = np.broadcast_to(np.asarray(um.hessian([FR, sv])[0], float), (3, 3, 3, 3) + batch)
+                run.compare(mon, "model=%s clause=material-isotropy-elasticity" % name, maxabs(Ar - np.einsum("jm...,ln...,imkn...->ijkl...", R, R, A)) / sA,
+                            tol_isotropy_elasticity(m), "%s: A(F Q^T) != Q Q : A(F) (reference indices)" % name, unit=name + ":isotropy-elasticity",
+                            config=(name, "isotropy-A"))
+        # 6 material isotropy of isotropic models with tensor-valued state, free of the layout of the state: the whole history is driven
+        # from the virgin state once with F_k and once with F_k R^T (the same rotation of the reference configuration in every step)
+        if m.isotropic and not m.microsphere and m.nsv > 1:
+            R = special_rotations(rng, batch)
+            s, sr, err = m.initial_statevars(batch), m.initial_statevars(batch), 0.0
+            for k in range(3):
+                Fk = batch_F(rng, batch, lo=0.8, hi=1.35)
+                Ak = um.hessian([Fk, s])[0] if k == 2 else None
+                gk, gr = um.gradient([Fk, s]), um.gradient([MM.mmT(Fk, R), sr])
+                s, sr = np.asarray(gk[-1], float), np.asarray(gr[-1], float)
+                err = max(err, maxabs(np.asarray(gr[0], float) - MM.mmT(np.asarray(gk[0], float), R)))
+            # (tt.lagrange.morph: the recorded eigvalsh finding breaks this clause as well, at 5e-3..2e-2; only a ceiling is judged)
+            clause, tol_h = ("material-isotropy-history", tol) if name not in CEILING_HISTORY else ("material-isotropy-history-ceiling", CEILING_HISTORY[name])
+            run.compare(mon, "model=%s clause=%s" % (name, clause), err / max(maxabs(Ak), 1e-300), tol_h,
+                        "%s: a history F_k R^T from the virgin state does not give the stresses P_k R^T" % name, unit=name + ":isotropy-history",
+                        config=(name, "isotropy-history"))
     return fn
 
 
@@ -117,30 +427,49 @@ def cases(tier, seed):
         heavy = "representative_directions" in name
         for rep in range(1 if heavy and tier == "quick" else (2 if heavy else reps)):
             out.append(("model:%s:%d" % (name, rep), case_model(name, rep)))
+    for name, (rq, rt) in EXTRA.items():
+        for rep in range(rq if tier == "quick" else rt):
+            out.append(("model:%s:%d" % (name, rep), case_model(name, rep)))
     return out
 
 
 ISO = [n for n in C03.NAMES if not any(k in n for k in ("orthotropic", "miehe", "representative_directions", "viscoelastic", "lagrange.morph", "microsphere"))]
 HYPER = [n for n in C03.NAMES if not any(k in n for k in ("OgdenRoxburgh", "ogden_roxburgh", "viscoelastic", "morph", "total_lagrange", "updated_lagrange"))]
+# the entries of this check: isotropic with scalar / no state, isotropic with tensor-valued state, hyperelastic
+ISO_EXTRA = [n for n in EXTRA if not any(k in n for k in ("microsphere", "viscoelastic"))]
+ISO_HISTORY = ["tt.finite_strain_viscoelastic", "jax.lagrange.morph", "tt.lagrange.morph", "jax.Hyperelastic[nsv=6](viscoelastic)", "tt.finite_strain_viscoelastic[parallel]"]
+HYPER_EXTRA = ["tt.microsphere.affine_stretch(linear)", "tt.microsphere.affine_tube(langevin)", "NeoHooke(mu,bulk=5000mu)[units]", "tt.ogden[tuple,ndarray]", "tt.third_order_deformation[defaults]", "jax.mooney_rivlin[defaults]"]
 
 
 def _required():
     req = []
-    for n in C03.NAMES:
+    for n in ALLNAMES:
         req += [n + ":objectivity", n + ":tau-symmetric", n + ":stress-free", n + ":objectivity-elasticity"]
-    req += [n + ":isotropy" for n in ISO] + [n + ":major-symmetry" for n in HYPER]
+    req += [n + ":isotropy" for n in ISO + ISO_EXTRA] + [n + ":major-symmetry" for n in HYPER + HYPER_EXTRA]
+    req += [n + ":isotropy-elasticity" for n in ISO + ISO_EXTRA if n not in SHIFTED] + [n + ":isotropy-history" for n in ISO_HISTORY]
+    req += [n + ":stress-free-shift" for n in SHIFTED] + [n + ":tau-ceiling" for n in CEILING_TAU]
+    # reached by the reps of the quick tier for every seed (scheduled by index)
+    req += ["batch:(1,n)", "batch:(n,1)", "batch:(2,3)", "layout:fortran-readonly", "statevars:empty-array", "states:coincident-principal-stretches",
+            "states:stretches-0.3-to-3", "stiffness-unit:1", "stiffness-unit:1e-06"]
+    req += ["flags:" + f for f in ("jax.Hyperelastic(default)", "jax.Hyperelastic(parallel=True)", "jax.Material(jacobian=jacrev)",
+                                   "jax.Material(jit=False)", "jax.Material(parallel=True)", "jax.Material(jacobian=jacfwd)",
+                                   "tt.Material[statevars](default)", "tt.Material[statevars](parallel=True)", "tt.Hyperelastic[statevars](parallel=True)")]
     return req
 
 
 SPEC = {
     "required_units": _required(),
-    "rule": ("48 finite-strain registry entries x random admissible parameters x deformation gradients R Q diag(lambda) Q^T (lambda in "
-             "[0.75,1.4], distinct) x Haar rotations plus a 180-degree and a near-identity rotation; state variables reached through a "
-             "random prior history; a configuration is distinct by (model, clause)"),
+    "rule": ("48 finite-strain registry entries and 18 entries of this check (state-variable branches of jax.Hyperelastic and of the total / updated "
+             "Lagrange wrappers, micro-sphere frameworks with state and with the other chain law, other base laws of the pseudo-elastic models, constructor flags, stiffness units "
+             "1e-6 / 1 / 1e6, parameter containers, partially given parameters) x random admissible parameters x deformation gradients R Q diag(lambda) Q^T (lambda in "
+             "[0.75,1.4], distinct; or coincident) x trailing shapes (1,n), (n,1), (2,3), Fortran-ordered read-only arguments, empty state arrays x Haar rotations "
+             "plus a 180-degree and a near-identity rotation; state variables reached through a random prior history; a configuration is distinct by (model, clause)"),
     "assumptions": ["models whose source perturbs eigenvalues are allowed 100 x (tensortrax eigvalsh, 1.5e-8) resp. 30 x (jax storakers/extended_tube/"
                     "morph, 1e-4) the documented perturbation on the clauses it can touch (stress-free reference, isotropy, tensortrax second "
                     "derivatives); objectivity and the symmetry of P F^T are judged at 1e-9 for every model", "material isotropy is asserted for isotropic non-micro-sphere models with scalar or no "
-                    "state variables"],
+                    "state variables at fixed state (stress and elasticity), with tensor-valued state by a whole history in the rotated reference frame",
+                    "P(I) of jax storakers / extended_tube is additionally compared at 1e-10 with the closed-form effect of their documented 1e-4 shift",
+                    "the two recorded findings stay matched by key; the asymmetry of P F^T of tt.lagrange.morph is additionally bounded by a ceiling"],
     "jobs": {"quick": 12, "thorough": 16},
     "timeout": {"quick": 1200, "thorough": 5400},
 }
